@@ -1,5 +1,5 @@
 import Aldy.Model.Normalize
-import Aldy.Props.C06
+import Aldy.Props.C06Table
 import Mathlib.Tactic.FieldSimp
 import Mathlib.Tactic.Ring
 
@@ -143,5 +143,101 @@ theorem regionSum_replicate (accept : DRead → Bool) (f : Nat → Nat → Nat) 
 example : regionCoverage 9600 9600 480 480 = .ok 2 := by decide +kernel
 example : regionCoverage 9600 (3 * 9600) (3 * 720) 480 = .ok 3 := by decide +kernel
 example : overlap 10 5 12 20 = 3 := by decide +kernel
+
+
+/-! ### The region sum of the normalisation is the sum of the pileup depths (link to C06) -/
+
+/-- number of positions of `[a, a+len)` a read spanning `[s, s+n)` covers -/
+theorem overlap_count (s : Int) (n : Nat) (a : Int) (len : Nat) :
+    ((List.range len).filter fun (i : Nat) => decide (s ≤ a + (i : Int) ∧ a + (i : Int) < s + (n : Int))).length =
+      overlap s n a (a + (len : Int)) := by
+  induction len with
+  | zero =>
+    simp only [List.range_zero, List.filter_nil, List.length_nil]
+    unfold overlap
+    simp only
+    split_ifs <;> omega
+  | succ k ih =>
+    rw [List.range_succ, List.filter_append, List.length_append, ih]
+    simp only [List.filter_cons, List.filter_nil]
+    unfold overlap
+    simp only
+    by_cases hk : s ≤ a + (k : Int) ∧ a + (k : Int) < s + (n : Int)
+    · simp only [hk, and_self, decide_true, if_true, List.length_cons, List.length_nil]
+      push_cast
+      split_ifs <;> omega
+    · simp only [hk, decide_false, Bool.false_eq_true, if_false, List.length_nil]
+      push_cast
+      split_ifs <;> omega
+
+theorem sum_map_add_nat {α : Type} (l : List α) (f g : α → Nat) :
+    (l.map fun x => f x + g x).sum = (l.map f).sum + (l.map g).sum := by
+  induction l with
+  | nil => rfl
+  | cons x xs ih => simp only [List.map_cons, List.sum_cons, ih]; omega
+
+theorem sum_indicator_eq_count {α : Type} (l : List α) (p : α → Bool) :
+    (l.map fun x => if p x then 1 else 0).sum = (l.filter p).length := by
+  induction l with
+  | nil => rfl
+  | cons x xs ih =>
+    simp only [List.map_cons, List.sum_cons, List.filter_cons, ih]
+    cases p x <;> simp <;> omega
+
+/-- **region_sum_is_sum_of_depths** what `_normalize_coverage` adds up for a region - the depth
+of the pileup table at every position of `[a, a+len)` - is the sum over the reads of the
+number of region bases each one spans, i.e. exactly the `regionSum` the other two depth walkers
+compute directly from the CIGARs: the sample's region signal and the profile's are sums of the
+same quantity (C06 `depth_total_general` + a double-counting argument). -/
+theorem region_sum_is_sum_of_depths (l : LocusV) (reads : List ReadV) (a : Int) (len : Nat)
+    (h : ∀ i < len, ∀ site ∈ l.multiSites, siteTouches site (a + (i : Int)) = false) :
+    ((List.range len).map fun (i : Nat) => depthAt (reads.flatMap fun r => (parseRead l r).1) (a + (i : Int))).sum =
+      (reads.map fun r => overlap r.refStart (refLen r.cigar) a (a + (len : Int))).sum := by
+  have hdepth : ∀ i ∈ List.range len,
+      depthAt (reads.flatMap fun r => (parseRead l r).1) (a + (i : Int)) =
+        (reads.filter fun r => decide (r.refStart ≤ a + (i : Int) ∧ a + (i : Int) < r.refStart + refLen r.cigar)).length := by
+    intro i hi
+    exact depth_total_general l reads (a + (i : Int)) (h i (List.mem_range.mp hi))
+  rw [List.map_congr_left hdepth]
+  clear hdepth h
+  induction reads with
+  | nil => simp
+  | cons r rs ih =>
+    simp only [List.map_cons, List.sum_cons]
+    rw [← ih, ← overlap_count r.refStart (refLen r.cigar) a len, ← sum_indicator_eq_count, ← sum_map_add_nat]
+    congr 1
+    apply List.map_congr_left
+    intro i _
+    simp only [List.filter_cons]
+    split <;> simp_all <;> omega
+
+/-- the right-hand side above is the `regionSum` of the sample walker on the same reads -/
+theorem regionSum_of_reads (reads : List ReadV) (a b : Int) :
+    regionSum (fun _ => true) consumes (reads.map fun r => ({ refStart := r.refStart, cigar := r.cigar } : DRead)) a b =
+      (reads.map fun r => overlap r.refStart (refLen r.cigar) a b).sum := by
+  unfold regionSum
+  simp only [List.filter_true, List.map_map]
+  congr 1
+
+
+/-- **normalised_signal_is_read_overlap** the chain from the alignments to the region signal:
+the sum `_normalize_coverage` takes over the positions of a region of `Coverage.total(pos)` of
+the table `_make_coverage` built from the reads is the sum over the reads of the bases of the
+region each one spans (for regions without catalogued multi-substitution sites). -/
+theorem normalised_signal_is_read_overlap (l : LocusV) (reads : List ReadV) (a : Int) (len : Nat)
+    (h : ∀ i < len, ∀ site ∈ l.multiSites, siteTouches site (a + (i : Int)) = false) :
+    ((List.range len).map fun (i : Nat) =>
+        (⟨makeTable l (reads.flatMap fun r => (parseRead l r).1), []⟩ : Cov).totalPos (a + (i : Int))).sum =
+      (((reads.map fun r => overlap r.refStart (refLen r.cigar) a (a + (len : Int))).sum : Nat) : Rat) := by
+  rw [← region_sum_is_sum_of_depths l reads a len h]
+  have : ∀ i ∈ List.range len,
+      (⟨makeTable l (reads.flatMap fun r => (parseRead l r).1), []⟩ : Cov).totalPos (a + (i : Int)) =
+        ((depthAt (reads.flatMap fun r => (parseRead l r).1) (a + (i : Int)) : Nat) : Rat) :=
+    fun i _ => makeTable_totalPos l _ _
+  rw [List.map_congr_left this]
+  generalize (List.range len) = L
+  induction L with
+  | nil => simp
+  | cons x xs ih => simp only [List.map_cons, List.sum_cons, ih]; push_cast; rfl
 
 end Aldy
